@@ -356,7 +356,7 @@ def _is_size_read(fn, nid, F):
     return x.get('q') == Q + '::size' and (fn.sn(x.get('recv')) or {}).get('k') == 'this'
 
 
-def _bounded_wait_loop(fb, fn, F, prod):
+def _bounded_wait_loop(fb, fn, F, prod, need_max=True):
     waits = [(c, timed) for (c, cv, timed, lockd, g, pred) in _wait_sites(fb, fn, F) if cv == prod]
     for (c, timed) in waits:
         inloop = in_cfg_loop(fn, c['id'])
@@ -374,7 +374,7 @@ def _bounded_wait_loop(fb, fn, F, prod):
             full_when_false = (l_size and r_max and x['op'] in ('<', '<=')) or (l_max and r_size and x['op'] in ('>', '>='))
             if (full_when_true and sense) or (full_when_false and not sense):
                 loopcond = True
-        if timed and inloop and maxg and loopcond:
+        if timed and inloop and (maxg or not need_max) and loopcond:
             return True
     return False
 
@@ -534,11 +534,31 @@ def _queue_shapes(fb, R, rec, fns, F, cons, prod, all_raw=()):
         if not ok:
             # the wait loop may live in a helper of the class that push calls before it inserts
             for h in all_raw:
-                if h.usr == raw.usr or not _bounded_wait_loop(fb, h, F, prod):
+                if h.usr == raw.usr:
                     continue
-                hc = [n for n in raw.all_nodes() if n.get('k') == 'call' and n.get('u') == h.usr and (raw.sn(n.get('recv')) or {}).get('k') == 'this']
+                full = _bounded_wait_loop(fb, h, F, prod)
+                if not full and not _bounded_wait_loop(fb, h, F, prod, need_max=False):
+                    continue
+                hc = [n for n in raw.all_nodes() if n.get('k') == 'call' and n.get('u') == h.usr and (raw.sn(n.get('recv')) or {'k': 'this'}).get('k') == 'this']
+                if not full:
+                    # the `max != 0` guard may stay at the call site of the helper
+                    def _maxg(c_):
+                        return any(sense and (raw.sn(cn) or {}).get('k') == 'member' and raw.sn(cn)['name'] == F['max']
+                                   for (cn, sense, _b) in guards_of(raw, c_['id']))
+                    hc = [c_ for c_ in hc if _maxg(c_)]
                 rins = _qcalls(raw, F, ('push', 'emplace'))
-                if hc and rins and all(any(raw.elem_dominates(c_['id'], i_['id']) for c_ in hc) for i_ in rins):
+                hids = {c_['id'] for c_ in hc}
+                rids = {i_['id'] for i_ in rins}
+
+                def bounded_edge(b, idx, s_, raw=raw):
+                    # with an unbounded queue (max == 0) there is nothing to wait for
+                    blk = raw.blocks[b]
+                    if 'cond' in blk and len(blk['succs']) == 2 and idx == 1:
+                        cn = raw.sn(blk['cond'])
+                        if cn is not None and cn.get('k') == 'member' and cn.get('name') == F['max']:
+                            return False
+                    return True
+                if hc and rins and path_search(raw, raw.entry, lambda e: e in rids, lambda e: e in hids, bounded_edge, from_block_start=True) is None:
                     ok = True
         R.check(ok, 'Q7-bounded-wait-loop', '%s#full-loop' % fn.q, fn.site,
                 'push(): the full-queue wait must be a timed wait inside a loop that re-tests size() against %s, guarded by %s != 0'
@@ -745,6 +765,27 @@ def pool_rules(fb, R):
             ok = any(sense and (fn.sn(c) or {}).get('q') == 'std::thread::joinable' for (c, sense, _b) in gs)
             inl = [l for l in fn.loops if fn.in_range(j['id'], l['b'], l['e']) and l['cls'] == 'CXXForRangeStmt']
             ok = ok and len(inl) == 1
+        elif not joins:
+            # std::for_each(m_threads.begin(), m_threads.end(), [](std::thread& t) { if (t.joinable()) t.join(); })
+            for lam in [n for n in fn.all_nodes() if n.get('k') == 'lambda']:
+                g = fb.lambda_fn(fn, lam)
+                if g is None:
+                    continue
+                lj = [n for n in g.all_nodes() if n.get('k') == 'call' and n.get('q') == 'std::thread::join']
+                if len(lj) != 1:
+                    continue
+                guarded = any(sense and (g.sn(c) or {}).get('q') == 'std::thread::joinable' for (c, sense, _b) in guards_of(g, lj[0]['id']))
+                byref = bool(g.params) and g.params[0]['t'].rstrip().endswith('&') and 'const' not in g.params[0]['t']
+                whole = False
+                for fe in [n for n in fn.all_nodes() if n.get('k') == 'call' and n.get('q') == 'std::for_each' and len(n.get('args', [])) == 3]:
+                    if lam['id'] not in set(fn.subtree(fe['args'][2])):
+                        continue
+                    b_, e_ = fn.sn(fe['args'][0]), fn.sn(fe['args'][1])
+                    if b_ is not None and e_ is not None and b_.get('q', '').endswith('::begin') and e_.get('q', '').endswith('::end') \
+                            and fn.root_var(b_.get('recv')) == fn.root_var(e_.get('recv')) and (fn.root_var(b_.get('recv')) or ('',))[0] == 'field':
+                        whole = True
+                if guarded and byref and whole:
+                    ok = True
         R.check(ok, 'P3-joiner-joins-all', fn.q, fn.site, 'thread_joiner::~thread_joiner must join every joinable thread of the vector')
     if not fb.fns(P + '::thread_joiner::(dtor)'):
         R.broken('thread_joiner destructor not found')
